@@ -117,6 +117,14 @@ def run(prop, tier, extra=None):
     traces = driver_sched.gen_traces(NTRACES[tier], common.seed() + hash(prop) % 1000 if False else common.seed() + int(prop[1:]) * 101,
                                      policies=POLICIES[prop])
     if prop == "C08":
+        # random VALID configurations through the unmodified run_simulator with the real generator: durations below one tick, tick rates up to
+        # 100000, 1-cpu and sub-GB pools, probability triples with zeros and awkward decimals, all policies (obs mode, sparse)
+        from . import driver_sim
+        extra_tr = driver_sim.gen_traces(NTRACES[tier] // 2, common.seed() + 808, frac_uncontended=0.0)
+        for tr in extra_tr:
+            for e in tr:
+                e["tid"] += 2 * 10**6
+        traces += extra_tr
         # deterministic probes of the listed known finding D6 (priority-pool ignores single-operator mode)
         traces += [driver_sched.run_scenario(1000 + i, 10**6 + i, "priority-pool", "single") for i in range(4)]
     mon, mon2, owners = validate(traces, rep, prop, step=(prop == "C08"))
